@@ -68,6 +68,22 @@ def gen_ops(ctx):
                         if org == "rgb32f" and n:
                             # +0.0 against -0.0 compares equal; NaN compares unequal to itself
                             A("equal", 0, [0] * n, [1] * n); A("equal", 0, [9] * n, [8] * n); A("equal", 0, [7] + [0] * (n - 1), [7] + [0] * (n - 1))
+    # image operator== / != : two gil::image objects, every pair of row alignments (padded and contiguous rows), equal content, one pixel differing in
+    # one channel, different dimensions
+    for org in ORGS + ["rgb8>rgb8p", "rgb8p>rgb8", "rgb8>bgr8"]:
+        so_, do_ = (org.split(">") + [org])[:2] if ">" in org else (org, org)
+        als = [0, 1, 2, 4, 8, 16, 32]
+        for (w, h) in DIMS_Q + [r.choice(dims_all) for _ in range(30 if th else 4)]:
+            n = w * h
+            for _ in range(3 if th else 2):
+                a1, a2 = r.choice(als), r.choice(als)
+                ev = vals(r, so_, n, special=True)
+                if so_ == "rgb32f": ev = [v if v % 8 != 7 and (v >> 3) % 8 != 7 and (v >> 6) % 8 != 7 else 2 for v in ev]
+                ops.append(line("imgeq", org, "full", "full", w, h, a1, a2, 0, 0, 0, ev, list(ev)))
+                for c in range(3 if n else 0):
+                    dv2 = list(ev); k = r.below(n); dv2[k] = one_channel_diff(do_, dv2[k], c)
+                    ops.append(line("imgeq", org, "full", "full", w, h, a1, a2, 0, 0, 0, ev, dv2))
+                ops.append(line("imgeq", org, "full", "full", w, h, a1, a2, 0, 0, 1, ev, vals(r, do_, (w + 1) * h)))
     for cross in CROSS:
         so_, do_ = cross.split(">")
         for sk in (["full", "sub"] if not th else KINDS):
@@ -96,9 +112,18 @@ ASSUME = [
     "view dimensions agree (the algorithms BOOST_ASSERT it); pixel steps and row strides fit std::ptrdiff_t",
 ]
 
+def degenerate_keeps_dims(ctx):
+    """source-selected model variant: does image::allocate_ build a view of the requested dimensions when no byte is needed?"""
+    import os, re
+    try: text = open(os.path.join(ctx.include, "boost/gil/image.hpp")).read()
+    except OSError: return False
+    m = re.search(r"void allocate_\(point_t const& dimensions, std::false_type\)(.*?)_memory\s*=\s*_alloc\.allocate", text, re.S)
+    return bool(m and "create_view" in m.group(1))
+
 def compile_all(ctx):
     pb, _ = vlib.compile_harness(ctx, "harness/C04/probe_fill_planar_step.cpp", name="C04_probe_fill", sanitize=False, opt="-O0")
-    PF[0] = 1 if pb else 0
+    PF[0] = (1 if pb else 0) + (2 if degenerate_keeps_dims(ctx) else 0)
+    ctx.cov["source_variant_degenerate_image_keeps_dimensions"] = bool(PF[0] & 2)
     ctx.cov["probe_fill_planar_step_compiles"] = bool(pb)
     pe, _ = vlib.compile_harness(ctx, "harness/C04/probe_equal_planar.cpp", name="C04_probe_equal", sanitize=False, opt="-O0")
     ctx.cov["probe_equal_planar_compiles"] = bool(pe)
